@@ -538,3 +538,20 @@ Definition C09_shape_items_full : Prop := forall fuel text s',
   Peg.parse blots_grammar fuel PG_input text = Peg.Ok s' -> forest_shape_ok text (rev (out s')) = true.
 Definition C09_view_items_full : Prop := forall fuel text s',
   Peg.parse blots_grammar fuel PG_input text = Peg.Ok s' -> forest_view_ok text (rev (out s')) = true.
+
+(* the comment part of atoms_ok at program level: under the hypotheses of C09_parse_keeps_comments every comment of
+   the commented program the parser model builds is "//" ++ r with no line feed in r (what is missing for
+   ScanFmt.comment_ok is only a bare carriage return inside r, which the grammar admits) *)
+Require Import Blots.proofs.PegShapeProgram.
+Theorem C09_parsed_program_comment_texts : forall text forest p,
+  parse_program_c text = PCOk forest p ->
+  forest_view_ok text forest = true -> forest_shape_ok text forest = true ->
+  forest_no_empty_container text forest = true ->
+  Forall comment_text_ok (program_comments p).
+Proof. exact parsed_program_comment_texts. Qed.
+Check C09_parsed_program_comment_texts : forall text forest p,
+  parse_program_c text = PCOk forest p ->
+  forest_view_ok text forest = true -> forest_shape_ok text forest = true ->
+  forest_no_empty_container text forest = true ->
+  Forall comment_text_ok (program_comments p).
+Print Assumptions C09_parsed_program_comment_texts.
